@@ -391,11 +391,14 @@ func (tr *vTrigRun) checkTriggers(ch int) {
 		// examined under the old lengths, and they are examined under the new ones when the history kept for the old length
 		// (2*nsamp+10 samples) reaches npre(new) samples further back than they do. That is the case whenever
 		// npre(new) <= nsamp(old)+npre(old)+10 and the previous epoch delivered at least that much history.
-		if ep.lenChanged && ei > 0 && ts.EdgeTrigger {
+		// The same holds, more simply, when only the trigger settings changed (or an unchanged request was repeated): the
+		// new settings are applied to everything not yet examined, and the history kept always reaches back far enough.
+		if ei > 0 && ts.EdgeTrigger {
 			old := tr.epochs[ei-1]
 			on, op := old.nsamp, old.npre
 			oldEnd := int(old.endFrame - f.firstFrame)
-			if npre <= on+op+10 && int(old.endFrame-old.startFrame) >= 2*on+10 && reflect.DeepEqual(old.set[ch].ts, *ts) {
+			enough := int(old.endFrame-old.startFrame) >= 2*on+10
+			if (ep.lenChanged && npre <= on+op+10 && enough && reflect.DeepEqual(old.set[ch].ts, *ts)) || (!ep.lenChanged && !old.lenChanged && on == nsamp && op == npre && enough) {
 				zlo, zhi := oldEnd-(on-op), lo
 				if zlo < 3 {
 					zlo = 3
@@ -423,6 +426,26 @@ func (tr *vTrigRun) checkTriggers(ch int) {
 				if epT[k]-epT[k-1] < nsamp {
 					c.Violate("c02:overlap", "channel %d: edge-only epoch %d has triggers at %d and %d, closer than one record (%d)", ch, ei,
 						int(f.firstFrame)+epT[k-1], int(f.firstFrame)+epT[k], nsamp)
+					return
+				}
+			}
+		}
+		// 5b. an auto record (a primary on a sample that satisfies no other enabled criterion) comes a full auto delay, and at least
+		// one record, after the previous trigger of the channel: triggers in between restart the delay
+		if ts.AutoTrigger {
+			delay := int(ts.AutoDelay.Seconds()*f.ds.sampleRate + 0.5)
+			if delay < nsamp {
+				delay = nsamp
+			}
+			for k := 1; k < len(epT); k++ {
+				t := epT[k]
+				if t < 3 || (ts.EdgeTrigger && crit.edge(t, ts)) || (ts.LevelTrigger && crit.level(t, ts, signed)) {
+					continue
+				}
+				c.Cov("auto_records_checked", 1)
+				if t-epT[k-1] < delay {
+					c.Violate("c02:auto-early", "channel %d: the record at frame %d (epoch %d: %s; %s) satisfies no criterion but the auto trigger's, and the previous trigger was at frame %d, only %d samples earlier (auto delay %d samples, records of %d)",
+						ch, int(f.firstFrame)+t, ei, ep.set[ch].desc, ep.how, int(f.firstFrame)+epT[k-1], t-epT[k-1], delay, nsamp)
 					return
 				}
 			}
@@ -880,7 +903,7 @@ func init() {
 		Run: func(c *vCase) { vRunTrigCase(c, "C02") },
 		Meta: vMeta{
 			Level: "exploration",
-			Rule:  "case as C01 without edge-multi/group; control history = settings restored from configuration or applied by ChangeTriggerState, then 0-3 reconfigurations (new trigger settings, ConfigurePulseLengths same/changed/much shorter) between blocks; oracle = independent scan of the ground truth for the edge and level criteria per epoch (soundness, edge completeness with one-record dead time, level completeness within one record, no overlap for edge-only, auto gap bound); non-trivial = at least one primary emitted",
+			Rule:  "case as C01 without edge-multi/group; control history = settings restored from configuration or applied by ChangeTriggerState, then 0-3 reconfigurations (new trigger settings, ConfigurePulseLengths same/changed/much shorter) between blocks; oracle = independent scan of the ground truth for the edge and level criteria per epoch (soundness, edge completeness with one-record dead time, level completeness within one record, no overlap for edge-only, auto gap bound, an auto record at least a full auto delay after the channel's previous trigger); across a reconfiguration that leaves the lengths alone the samples the old settings had not examined are checked under the new ones; non-trivial = at least one primary emitted",
 			Assumptions: []string{"decidable domain of an epoch: from its first block (plus npre after a length change, and never before stream start + npre) to npost samples before its last delivered frame; samples outside are exempt, except at a change of lengths: the unexamined end of the previous epoch and the first npre samples of the new one are checked for edge completeness (dead time of the new length) whenever the history kept for the old length reaches far enough back (npre(new) <= nsamp(old)+npre(old)+10, previous epoch at least 2*nsamp(old)+10 frames long, same trigger settings)",
 				"dead time after a trigger T is T < i <= T+nsamp (inside a block the scan resumes at T+nsamp+1, across blocks at T+nsamp; both are readings of 'one-record dead time')"},
 			Guards: map[string]map[string]int{
